@@ -220,7 +220,7 @@ func init() {
 	register(&CheckDef{
 		ID:    "C14",
 		Title: "Behaviour is independent of index type, shard count, I/O type and limits",
-		Reach: []string{"done", "files-compared", "batch", "restarted", "spanning-iterator"},
+		Reach: []string{"done", "files-compared", "batch", "restarted", "spanning-iterator", "seek-positioned"},
 		Jobs: func(tier string) []JobSpec {
 			var js []JobSpec
 			add := func(name string, params map[string]int64) {
